@@ -1122,8 +1122,13 @@ class Engine:
         f = z3.Function("py_str_repeat", z3.StringSort(), z3.IntSort(), z3.StringSort())
         self.use("str*int: len(s*k) = len(s)*max(k,0); (1-char s) every char of s*k is s[0]")
         sa, kb = S.to_str_term(a), S.to_int_term(b)
+        kb = z3.If(kb > 0, kb, 0)   # canonical count: negative counts give the empty string
+        if z3.is_app(sa) and sa.decl().name() == "py_str_repeat":
+            # (s * m) * k == s * (m * k): keep one canonical application
+            sa, kb = sa.arg(0), sa.arg(1) * kb
+            a = VC(sa.as_string()) if z3.is_string_value(sa) else VStr(sa)
         r = f(sa, kb)
-        st.assume(z3.Length(r) == z3.If(kb > 0, kb, 0) * z3.Length(sa))
+        st.assume(z3.Length(r) == kb * z3.Length(sa))
         if isinstance(a, VC) and len(a.py) == 1:
             # small explicit cases, enough for padding arithmetic
             for k in range(0, 5):
